@@ -201,8 +201,24 @@ func (t *Transaction) initializeCache() error {
 	if t.Cache != nil {
 		return nil
 	}
+	// While the operations of a transaction run, its cache can hold several
+	// rows with the same values in the columns of a schema index: only the
+	// final rows have to be unique and they are checked at the end. A schema
+	// index of a cache keeps a single row per value though, so it would lose
+	// rows and lookups through it would miss them: build the cache of the
+	// transaction without schema indexes.
+	schema := t.Model.Schema
+	schema.Tables = make(map[string]ovsdb.TableSchema, len(t.Model.Schema.Tables))
+	for name, table := range t.Model.Schema.Tables {
+		table.Indexes = nil
+		schema.Tables[name] = table
+	}
+	dbModel, errs := model.NewDatabaseModel(schema, t.Model.Client())
+	if len(errs) > 0 {
+		return fmt.Errorf("failed to create the database model of the transaction cache: %v", errs)
+	}
 	var err error
-	t.Cache, err = cache.NewTableCache(t.Model, nil, t.logger)
+	t.Cache, err = cache.NewTableCache(dbModel, nil, t.logger)
 	return err
 }
 
